@@ -591,6 +591,16 @@ func runPick(e *Env) {
 	}
 	e.Note("policy", cfg.String())
 	e.Note("dcs", fmt.Sprint(cfg.racks))
+	if tp.Chance(1, 5) {
+		// a session that has been picking hosts for a long time: the counter behind the
+		// rotation is about to pass a power of two (2^31 is where a 32-bit int overflows,
+		// 2^63 where a 64-bit one does)
+		v := []uint64{1<<31 - 3, 1<<32 - 3, 1<<63 - 3, 1<<64 - 3, 1<<63 + 5, 1<<31 + 1<<62}[tp.Next(6)]
+		if gocql.VerifSetPickCounter(r.pol, v) {
+			k.Fault("history.many-picks-before")
+			e.Note("picksBefore", fmt.Sprintf("%#x", v))
+		}
+	}
 
 	// ---- initial population ----
 	n0 := tp.Range(1, 8)
